@@ -170,7 +170,26 @@ def run_case(case, B, msgb, keep=False, debug=False, dump=False):
         if dp.poll() is None:
             dp.send_signal(signal.SIGTERM)
             try:
-                dp.wait(timeout=15)
+                try:
+                    dp.wait(timeout=1.5)
+                except subprocess.TimeoutExpired:
+                    # the handler only sets a flag; when the signal arrives just before select() is entered (common under TSan,
+                    # which defers handlers) the idle daemon sleeps on.  Shutdown is not part of C18/C19: wake it up.
+                    res['sigterm_needed_wakeup'] = True
+                    for _ in range(3):
+                        try:
+                            s = socket.socket(socket.AF_UNIX, socket.SOCK_STREAM)
+                            s.settimeout(1.0)
+                            s.connect(sock_path)
+                            s.close()
+                        except OSError:
+                            pass
+                        try:
+                            dp.wait(timeout=4.5)
+                            break
+                        except subprocess.TimeoutExpired:
+                            continue
+                    dp.wait(timeout=1)
             except subprocess.TimeoutExpired:
                 dp.kill()
                 dp.wait()
